@@ -695,6 +695,11 @@ def reachdist(CIJ, ensure_binary=True):
 
     def reachdist2(CIJ, CIJpwr, R, D, n, powr, col, row):
         CIJpwr = np.dot(CIJpwr, CIJ)
+        if ensure_binary:
+            # only the support of the power is used (R below). Kept as walk
+            # counts it reaches inf after ~165 rounds on a dense block, then
+            # inf * 0 = nan and `nan != 0` marks unreachable pairs reachable.
+            CIJpwr = (CIJpwr != 0).astype(float)
         R = np.logical_or(R, CIJpwr != 0)
         D += R
 
